@@ -31,7 +31,7 @@ traits are ever read, assigned or listened to.  See DESIGN.md section 4 / C10.
 import copy
 import warnings
 
-from traits.api import (HasTraits, Any, Int, Str, List, Dict, Set, Instance, Tuple, Union,
+from traits.api import (HasTraits, Any, Int, Str, List, Dict, Set, Instance, Trait, Tuple, Union,
                         ComparisonMode, push_exception_handler)
 from traits.observation.api import push_exception_handler as obs_push_exception_handler
 from traits.observation.api import trait as obs_trait
@@ -41,10 +41,12 @@ from vf.util import short
 META = {
     "level": "exploration",
     "rule": ("case = one history: a freshly built class family (Base/Sub/SubSub x with/without static "
-             "handlers; 20 declared traits covering constant, Any([])/Any({}) copies, List/Dict/Set "
+             "handlers; 26 declared traits covering constant, Any([])/Any({}) copies, List/Dict/Set "
              "objects, Instance(X,()) / Instance(X,args,kw), Any(factory=...) with and without args, "
              "_x_default methods (list/int/dict), Tuple(List(Int),Int) and Union(List(Int),Int) dynamic "
-             "defaults, comparison_mode none/identity variants, subclass overrides by class-body value and "
+             "defaults, Tuple/Union with legacy list/dict-copy members (Tuple(list,int), Tuple(Any([..]),Int), "
+             "Tuple(dict,str), Tuple(Trait([..],list),Int), Union(Trait(dict),None), Union(Any([..]),Int)), "
+             "comparison_mode none/identity variants, subclass overrides by class-body value and "
              "by _x_default), a pool of 2-6 "
              "instances of 1-3 of the classes created at different times (half of them with "
              "on_trait_change/observe recorders attached), 15 (quick) / 15-25 (thorough) steps drawn from "
@@ -216,6 +218,14 @@ BASE_SPEC = {
     "dobj":  ("method-any-dict", "dict", {"m": 1}, "method", "dict"),
     "tup":   ("tuple-dynamic", "tuple", ([], 0), None, "tup"),
     "un":    ("union-dynamic", "TraitListObject", [], None, "union"),
+    # Tuple / Union whose members are of the legacy "copy of a list/dict" kinds (plain Python
+    # types, Trait(list), Any([..])): the nested container is per instance on the unchanged tree
+    "tl":    ("tuple-legacy-list", "tuple", ([], 0), None, "tup"),
+    "ta2":   ("tuple-legacy-any-list", "tuple", ([1, 2], 3), None, "tup"),
+    "td":    ("tuple-legacy-dict", "tuple", ({}, ""), None, "tupd"),
+    "tt":    ("tuple-legacy-trait-list", "tuple", ([1, 2], 0), None, "tup"),
+    "ud":    ("union-legacy-dict", "dict", {}, None, "dictnone"),
+    "ua2":   ("union-legacy-any-list", "list", [4, 5], None, "union"),
     # comparison_mode none / identity: the Uninitialized filter is the only guard of a default read
     "cmn":   ("trait-list-cmp-none", "TraitListObject", [6], None, "list"),
     "cmi":   ("constant-cmp-identity-int", "int", 6, None, "int"),
@@ -304,6 +314,12 @@ def build(static):
             dobj = Any
             tup = Tuple(List(Int), Int)
             un = Union(List(Int), Int)
+            tl = Tuple(list, int)
+            ta2 = Tuple(Any([1, 2]), Int(3))
+            td = Tuple(dict, str)
+            tt = Tuple(Trait([1, 2], list), Int)
+            ud = Union(Trait(dict), None)
+            ua2 = Union(Any([4, 5]), Int)
             cmn = List(Int, [6], comparison_mode=ComparisonMode.none)
             cmi = Int(6, comparison_mode=ComparisonMode.identity)
             cmd = Any(comparison_mode=ComparisonMode.none)
@@ -397,6 +413,13 @@ def gen_value(rng, vtype):
         return Foo(z=rng.randrange(100))
     if vtype == "tup":
         return (ints(3), rng.randrange(10))
+    if vtype == "tupd":
+        return ({"k%d" % rng.randrange(4): rng.randrange(10) for _ in range(rng.randrange(3))},
+                rng.choice(["", "a", "xyz"]))
+    if vtype == "dictnone":
+        if rng.random() < 0.25:
+            return None
+        return {"k%d" % rng.randrange(4): rng.randrange(10) for _ in range(rng.randrange(3))}
     if vtype == "union":
         return rng.randrange(10) if rng.random() < 0.4 else ints(3)
     raise AssertionError(vtype)
@@ -416,6 +439,8 @@ def pick_mutation(rng, cur):
         return ("sadd", rng.randrange(100, 200))
     if isinstance(cur, tuple) and cur and isinstance(cur[0], list):
         return ("t0append", rng.randrange(100, 200))
+    if isinstance(cur, tuple) and cur and isinstance(cur[0], dict):
+        return ("t0dset", "k%d" % rng.randrange(4), rng.randrange(100, 200))
     if isinstance(cur, Foo):
         return ("fooz", rng.randrange(100, 200))
     return None
@@ -435,6 +460,8 @@ def apply_real(v, m):
         v.add(m[1])
     elif k == "t0append":
         v[0].append(m[1])
+    elif k == "t0dset":
+        v[0][m[1]] = m[2]
     elif k == "fooz":
         v.z = m[1]
     else:
@@ -457,6 +484,10 @@ def apply_model(p, m):
         return set(p) | {m[1]}
     if k == "t0append":
         return (p[0] + [m[1]],) + tuple(p[1:])
+    if k == "t0dset":
+        q = dict(p[0])
+        q[m[1]] = m[2]
+        return (q,) + tuple(p[1:])
     if k == "fooz":
         return ("Foo", m[1])
     raise AssertionError(m)
@@ -558,10 +589,10 @@ class History:
 
     OTC_NAMES = ("c", "st", "al", "l", "l_items", "li", "d", "d_items", "s", "s_items", "inst",
                  "dyn", "dyn_items", "dc", "tup", "un", "fac", "dobj", None, None, "inst.z", "l[]",
-                 "cmn", "cmi", "cmd", "cmn_items")
+                 "cmn", "cmi", "cmd", "cmn_items", "tl", "td", "ud", "ua2")
     OBS_EXPRS = ("c", "st", "al", "l", "l.items", "l:items", "li.items", "d.items", "s.items",
                  "inst", "inst.z", "inst:z", "dyn", "dyn.items", "dc", "tup", "un", "fac", "dobj",
-                 "ad", "fac2", "cmn", "cmn.items", "cmi", "cmd",
+                 "ad", "fac2", "cmn", "cmn.items", "cmi", "cmd", "tl", "ta2", "tt", "ud", "ua2",
                  # optional named traits: hooked when (and where) the instance trait is added
                  "extra0?", "extra1?", "extra1?.items", "extra2?")
 
@@ -859,8 +890,12 @@ class History:
                     continue
                 parts = mutable_parts(got[n])
                 stored_default = self.ctraits[cname][n].default_value()[1]
+                stored_parts = [stored_default]
+                if isinstance(stored_default, tuple) and not (stored_default and callable(stored_default[0])):
+                    # a constant tuple default: its members (not a (callable, args, kw) triple)
+                    stored_parts += mutable_parts(stored_default)
                 for p in parts:
-                    if p is stored_default:
+                    if any(p is q for q in stored_parts):
                         self.fail("shared-default/with-class-trait/%s" % family(kind),
                                   "fresh %s().%s IS the object stored in the class trait" % (cname, n), name=n)
                     for q in mutable_parts(prev.get(n, ())) if n in prev else ():
